@@ -206,35 +206,64 @@ def packMoved (info : CompId → CompInfo) (e : Handle) (isCreate : Bool) (initi
         | none => (g.1, [])
     | none => (g.1, [])
 
+def packStale (isCreate : Bool) (initial : Mask) (p : PackSt) (supplied tmask : Mask) : List CompId :=
+  (p.final.filter (fun c => p.replaced.contains c && initial.contains c)).filter
+    (fun c => !(isCreate && supplied.contains c) && tmask.contains c)
+
+def packF2 (info : CompId → CompInfo) (e : Handle) (supplied : Mask) (ti idx : Nat)
+    (acc : WM × List Cb) (c : CompId) : WM × List Cb :=
+  let cbR := if (info c).callbacks then [Cb.remove c e] else []
+  if supplied.contains c then (acc.1, acc.2 ++ cbR)
+  else (packSetVal ti idx acc.1 c (defaultVal info c),
+        acc.2 ++ cbR ++ (if (info c).callbacks then [Cb.assign c e] else []))
+
+def packF3 (info : CompId → CompInfo) (e : Handle) (tmask : Mask) (ti idx : Nat)
+    (acc : WM × List Cb) (cv : CompId × Val) : WM × List Cb :=
+  if tmask.contains cv.1 then
+    (packSetVal ti idx acc.1 cv.1 cv.2, acc.2 ++ (if (info cv.1).callbacks then [Cb.assign cv.1 e] else []))
+  else acc
+
+/-- state after the stale-instance loop -/
+def packW2 (info : CompId → CompInfo) (e : Handle) (isCreate : Bool) (initial : Mask) (sh : Shared)
+    (w : WM) (p : PackSt) : WM :=
+  let ti := (w.getArch p.final sh).2
+  let W1 := (packMoved info e isCreate initial sh w p).1
+  let supplied := Mask.ofList (p.src.map (·.1))
+  ((packStale isCreate initial p supplied (W1.arch ti).mask).foldl
+    (packF2 info e supplied ti (W1.locOf e).idx) (W1, [])).1
+
 /-- state component of `packFinish`: the move, then two loops of `packSetVal` on row `(ti, idx)` -/
 theorem packFinish_fst (info : CompId → CompInfo) (e : Handle) (isCreate : Bool) (initial : Mask)
     (sh : Shared) (w : WM) (p : PackSt) (cbs : List Cb) :
-    ∃ (stale : List CompId) (f2 : WM × List Cb → CompId → WM × List Cb)
-      (f3 : WM × List Cb → CompId × Val → WM × List Cb) (c1 c2 : List Cb),
-      (∀ a c, (f2 a c).1 = a.1 ∨ ∃ v, (f2 a c).1 = packSetVal (w.getArch p.final sh).2
-          ((packMoved info e isCreate initial sh w p).1.locOf e).idx a.1 c v) ∧
-      (∀ a cv, (f3 a cv).1 = a.1 ∨ (f3 a cv).1 = packSetVal (w.getArch p.final sh).2
-          ((packMoved info e isCreate initial sh w p).1.locOf e).idx a.1 cv.1 cv.2) ∧
-      (packFinish info e isCreate initial sh (w, p, cbs)).1 =
-        if p.dead then w else
-          (p.src.foldl f3 ((stale.foldl f2 ((packMoved info e isCreate initial sh w p).1, c1)).1, c2)).1 := by
-  refine ⟨_, _, _, [], [], ?_, ?_, ?_⟩
-  rotate_left 2
-  · unfold packFinish packMoved
-    simp only
-    split
-    · rfl
-    · rfl
-  · intro a c
-    simp only
-    split
-    · exact Or.inl rfl
-    · exact Or.inr ⟨_, rfl⟩
-  · intro a cv
-    simp only
-    split
-    · exact Or.inr rfl
-    · exact Or.inl rfl
+    (packFinish info e isCreate initial sh (w, p, cbs)).1 =
+      if p.dead then w else
+        (p.src.foldl (packF3 info e ((packW2 info e isCreate initial sh w p).arch (w.getArch p.final sh).2).mask
+            (w.getArch p.final sh).2 ((packMoved info e isCreate initial sh w p).1.locOf e).idx)
+          (packW2 info e isCreate initial sh w p, [])).1 := by
+  unfold packFinish packW2 packMoved
+  simp only
+  split
+  · rfl
+  · rfl
+
+theorem packF2_fst (info : CompId → CompInfo) (e : Handle) (supplied : Mask) (ti idx : Nat)
+    (acc : WM × List Cb) (c : CompId) :
+    (packF2 info e supplied ti idx acc c).1 = acc.1 ∨
+    (packF2 info e supplied ti idx acc c).1 = packSetVal ti idx acc.1 c (defaultVal info c) := by
+  unfold packF2
+  simp only
+  split
+  · exact Or.inl rfl
+  · exact Or.inr rfl
+
+theorem packF3_fst (info : CompId → CompInfo) (e : Handle) (tmask : Mask) (ti idx : Nat)
+    (acc : WM × List Cb) (cv : CompId × Val) :
+    (packF3 info e tmask ti idx acc cv).1 = acc.1 ∨
+    (packF3 info e tmask ti idx acc cv).1 = packSetVal ti idx acc.1 cv.1 cv.2 := by
+  unfold packF3
+  split
+  · exact Or.inr rfl
+  · exact Or.inl rfl
 
 theorem packMoved_sameTable (info : CompId → CompInfo) (e : Handle) (isCreate : Bool) (initial : Mask)
     (sh : Shared) (w : WM) (p : PackSt) : SameTable w (packMoved info e isCreate initial sh w p).1 := by
@@ -251,30 +280,44 @@ theorem packMoved_sameTable (info : CompId → CompInfo) (e : Handle) (isCreate 
         · exact SameTable.refl _
     · exact SameTable.refl _
 
+/-- a relation that holds along `packSetVal` and is reflexive/transitive holds along both loops -/
+theorem packLoops_rel (R : WM → WM → Prop) (hrefl : ∀ a, R a a) (htrans : ∀ a b c, R a b → R b c → R a c)
+    (hset : ∀ ti idx a c v, R a (packSetVal ti idx a c v))
+    (info : CompId → CompInfo) (e : Handle) (isCreate : Bool) (initial : Mask) (sh : Shared) (w : WM)
+    (p : PackSt) :
+    R (packMoved info e isCreate initial sh w p).1 (packW2 info e isCreate initial sh w p) ∧
+    ∀ tmask ti idx, R (packW2 info e isCreate initial sh w p)
+      (p.src.foldl (packF3 info e tmask ti idx) (packW2 info e isCreate initial sh w p, [])).1 := by
+  constructor
+  · unfold packW2
+    simp only
+    exact foldl_rel (fun a b : WM × List Cb => R a.1 b.1) (fun a => hrefl a.1)
+      (fun _ _ _ h₁ h₂ => htrans _ _ _ h₁ h₂)
+      (packF2 info e (Mask.ofList (p.src.map (·.1))) (w.getArch p.final sh).2
+        ((packMoved info e isCreate initial sh w p).1.locOf e).idx)
+      (fun a c => by
+        rcases packF2_fst info e (Mask.ofList (p.src.map (·.1))) (w.getArch p.final sh).2
+          ((packMoved info e isCreate initial sh w p).1.locOf e).idx a c with h | h <;> rw [h]
+        · exact hrefl _
+        · exact hset _ _ _ _ _) _ ((packMoved info e isCreate initial sh w p).1, [])
+  · intro tmask ti idx
+    exact foldl_rel (fun a b : WM × List Cb => R a.1 b.1) (fun a => hrefl a.1)
+      (fun _ _ _ h₁ h₂ => htrans _ _ _ h₁ h₂) _
+      (fun a cv => by
+        rcases packF3_fst info e tmask ti idx a cv with h | h <;> rw [h]
+        · exact hrefl _
+        · exact hset _ _ _ _ _) p.src (packW2 info e isCreate initial sh w p, [])
+
 theorem packFinish_sameTable (info : CompId → CompInfo) (e : Handle) (isCreate : Bool) (initial : Mask)
     (sh : Shared) (st : WM × PackSt × List Cb) :
     SameTable st.1 (packFinish info e isCreate initial sh st).1 := by
   rcases st with ⟨w, p, cbs⟩
-  rcases packFinish_fst info e isCreate initial sh w p cbs with ⟨stale, f2, f3, c1, c2, h2, h3, heq⟩
-  rw [heq]
+  rw [packFinish_fst]
   split
   · exact SameTable.refl w
-  · refine (packMoved_sameTable info e isCreate initial sh w p).trans ?_
-    have k2 := foldl_rel (fun a b : WM × List Cb => SameTable a.1 b.1) (fun a => SameTable.refl a.1)
-      (fun _ _ _ h₁ h₂ => h₁.trans h₂) f2
-      (fun a c => by
-        rcases h2 a c with h | ⟨v, h⟩
-        · rw [h]; exact SameTable.refl _
-        · rw [h]; exact packSetVal_sameTable _ _ _ _ _) stale
-      ((packMoved info e isCreate initial sh w p).1, c1)
-    have k3 := foldl_rel (fun a b : WM × List Cb => SameTable a.1 b.1) (fun a => SameTable.refl a.1)
-      (fun _ _ _ h₁ h₂ => h₁.trans h₂) f3
-      (fun a cv => by
-        rcases h3 a cv with h | h
-        · rw [h]; exact SameTable.refl _
-        · rw [h]; exact packSetVal_sameTable _ _ _ _ _) p.src
-      ((stale.foldl f2 ((packMoved info e isCreate initial sh w p).1, c1)).1, c2)
-    exact k2.trans k3
+  · have := packLoops_rel SameTable SameTable.refl (fun _ _ _ h₁ h₂ => h₁.trans h₂)
+      (fun ti idx a c v => packSetVal_sameTable ti idx a c v) info e isCreate initial sh w p
+    exact ((packMoved_sameTable info e isCreate initial sh w p).trans this.1).trans (this.2 _ _ _)
 
 theorem packFinish_ctl (info : CompId → CompInfo) (e : Handle) (isCreate : Bool) (initial : Mask)
     (sh : Shared) (st : WM × PackSt × List Cb) :
